@@ -349,6 +349,97 @@ Section Ops.
     | o :: rest => match h_step h o with Some h' => h_run h' rest | None => None end
     end.
 
+  (* ---------- the L1 counterpart: the same operations on a finite map handle -> url ---------- *)
+  (* This is Obs.hstep generalised from two slots to any number of handles.  The map is total with
+     None outside its domain; the counter mirrors the allocation pointer of the Url store. *)
+  Inductive l1op :=
+  | L1Parse (s : str) | L1Resolve (b : loc) (ref : str) | L1Clone (a : loc) | L1Set (a : loc) (w : N) (v : str)
+  | L1Touch (a : loc) | L1Sp (a : loc) (m : spmut) | L1Nop | L1Stop.
+
+  (* an L2 operation as an L1 operation; the heap is consulted only to find the owner of a
+     SearchParams handle (which never changes, HeapProofs.step_handles) *)
+  Definition l1_of (h : heap) (o : hop) : l1op :=
+    match o with
+    | HParse s => L1Parse s
+    | HResolve _ b ref => L1Resolve b ref
+    | HClone a => L1Clone a
+    | HSet a w v => L1Set a w v
+    | HTouch a => L1Touch a
+    | HSp a m => L1Sp a m
+    | HSpVia sl m =>
+        match rd (hs h) sl with
+        | Some s => match s_owner s with Some a => L1Sp a m | None => L1Nop end
+        | None => L1Stop
+        end
+    end.
+
+  Definition l1state := ((loc -> option url) * loc)%type.
+  Definition put (m : loc -> option url) (a : loc) (v : option url) : loc -> option url :=
+    fun b => if Nat.eqb b a then v else m b.
+
+  Definition l1_step (st : l1state) (o : l1op) : option l1state :=
+    let '(m, n) := st in
+    match o with
+    | L1Parse s =>
+        match Parse idna_raw c s with
+        | PUrl u => Some (put m n (Some u), Datatypes.S n)
+        | PErr _ | PNilNil => Some st
+        | PPanic | PFuel => None
+        end
+    | L1Resolve b ref =>
+        match m b with
+        | Some vb =>
+            match UrlParse idna_raw c vb ref with
+            | PUrl u => Some (put m (Datatypes.S n) (Some u), Datatypes.S (Datatypes.S n))
+            | PErr _ | PNilNil => Some st
+            | PPanic | PFuel => None
+            end
+        | None => None
+        end
+    | L1Clone a => match m a with Some u => Some (put m n (Some (Clone u)), Datatypes.S n) | None => None end
+    | L1Set a w v =>
+        match m a with
+        | Some u => match setter idna_raw c w u v with Some u' => Some (put m a (Some u'), n) | None => None end
+        | None => None
+        end
+    | L1Touch a => match m a with Some u => Some (put m a (Some (fst (ensure_sp c u))), n) | None => None end
+    | L1Sp a mu =>
+        match m a with
+        | Some u => let '(u1, l) := ensure_sp c u in Some (put m a (Some (sp_update c u1 (spmut_fun mu l))), n)
+        | None => None
+        end
+    | L1Nop => Some st
+    | L1Stop => None
+    end.
+
+  (* the L1 run that accompanies an L2 run *)
+  Fixpoint l1_run (h : heap) (st : l1state) (ops : list hop) : option l1state :=
+    match ops with
+    | [] => Some st
+    | o :: rest =>
+        match h_step h o, l1_step st (l1_of h o) with
+        | Some h', Some st' => l1_run h' st' rest
+        | _, _ => None
+        end
+    end.
+
+  (* without HSpVia the L1 run does not look at the heap at all *)
+  Definition no_via (o : hop) : bool := match o with HSpVia _ _ => false | _ => true end.
+  Fixpoint l1_run0 (st : l1state) (ops : list hop) : option l1state :=
+    match ops with
+    | [] => Some st
+    | o :: rest => match l1_step st (l1_of empty_heap o) with Some st' => l1_run0 st' rest | None => None end
+    end.
+
+  (* the handle an operation is applied to or returns: the only one whose value may change *)
+  Definition target (h : heap) (o : hop) : option loc :=
+    match o with
+    | HParse _ | HClone _ => Some (next (hu h))
+    | HResolve _ _ _ => Some (Datatypes.S (next (hu h)))
+    | HSet a _ _ | HTouch a | HSp a _ => Some a
+    | HSpVia sl _ => match rd (hs h) sl with Some s => s_owner s | None => None end
+    end.
+
   (* ---------- the buggy variants (for HeapProofs: what Sep excludes) ---------- *)
 
   (* D9 (fixed by 3a4c9c8): SearchParams.Clone copies the back-pointer and Url.Clone did not re-point
